@@ -301,6 +301,9 @@ pub enum BrokerAct {
     /// the network stalls: of whatever the broker sends next, only `after` bytes arrive at once;
     /// the rest arrives after the client's read found nothing `blocks` times
     Gate { after: usize, blocks: u8 },
+    /// the transport's send buffer fills up: after `after` more outbound bytes nothing is accepted
+    /// until `blocks` write calls have found it busy
+    WriteGate { after: usize, blocks: u8 },
 }
 
 #[derive(Clone, Debug, Serialize, Deserialize, PartialEq)]
